@@ -225,9 +225,10 @@ pub fn trace(args: &[String]) {
   let n = arg_usize(args, "--events", 5000);
   let outp = arg_value(args, "--out").expect("--out");
   let no_ticks = args.iter().any(|a| a == "--no-ticks");
+  let no_joypad = args.iter().any(|a| a == "--no-joypad");
   let mut rng = Rng::new(seed_from_env() ^ 0x1012);
   let mut out: Vec<u8> = Vec::new();
-  let carts: [(u8, u8, u8); 8] = [(0, 0, 0), (0, 0, 2), (1, 2, 3), (3, 1, 1), (2, 4, 2), (0x13, 3, 3), (0x11, 2, 0), (0x12, 0x52, 2)];
+  let carts: [(u8, u8, u8); 8] = [(0, 0, 0), (0, 0, 2), (1, 2, 3), (3, 1, 1), (2, 0x53, 2), (0x13, 3, 3), (0x11, 2, 0), (0x12, 0x52, 2)];
   let ioregs: [u16; 22] = [0xff00, 0xff01, 0xff02, 0xff04, 0xff05, 0xff06, 0xff07, 0xff0f, 0xff40, 0xff41, 0xff42, 0xff43, 0xff44, 0xff45,
                            0xff46, 0xff47, 0xff48, 0xff49, 0xff4a, 0xff4b, 0xff03, 0xff7f];
   let mut count = 0usize;
@@ -266,6 +267,13 @@ pub fn trace(args: &[String]) {
         let a = addr(&mut rng, &recent);
         let v = memory_read_byte(p, a);
         writeln!(out, "{}", json!({"ev": "br", "a": a, "v": v})).unwrap();
+        // the instruction-fetch view of the same address (ROM, work RAM, high RAM)
+        if a < 0x8000 || (0xc000..0xe000).contains(&a) || (0xff80..0xffff).contains(&a) {
+          let sl = crate::mem::get_executable_memory_slice(a as usize, p as *const crate::mem::MemoryAreas);
+          let fv = if sl.is_empty() { 0x1ff } else { sl[0] as u32 };
+          writeln!(out, "{}", json!({"ev": "bf", "a": a, "v": fv})).unwrap();
+          count += 1;
+        }
       } else if k < 18 {
         if no_ticks { count -= 1; continue; }
         let big = rng.chance(1, 5);
@@ -273,6 +281,7 @@ pub fn trace(args: &[String]) {
         core.memory.run_clock_cycles(crate::timing::ClockCycles(nn));
         writeln!(out, "{}", json!({"ev": "tick", "n": nn, "o": crate::cmd_machine::project(&mut core)})).unwrap();
       } else {
+        if no_joypad { count -= 1; continue; }
         let b = rng.below(8);
         if rng.chance(2, 3) { core.memory.io.joypad.press_button(crate::cmd_machine::button(b)); writeln!(out, "{}", json!({"ev": "press", "b": b, "o": crate::cmd_machine::project(&mut core)})).unwrap(); }
         else { core.memory.io.joypad.release_button(crate::cmd_machine::button(b)); writeln!(out, "{}", json!({"ev": "release", "b": b, "o": crate::cmd_machine::project(&mut core)})).unwrap(); }
